@@ -241,7 +241,7 @@ class Model:
             from .inventory import FUNCTIONS, MODULE_NAMES
         except ImportError:
             return
-        from .inline import MAX_ROUNDS, canonical_spellings, collapse_return_temps, collapse_test_temps, dissolve_attribute_records, dissolve_parameter_objects, fold_after_inlining, propagate_local_aliases, desugar_ifexp, desugar_match, desugar_exitstacks, desugar_partials_and_extends, desugar_return_all_any, dissolve_new_cm_classes, drop_absorbed_helpers, scalarise_local_objects, desugar_module_name_tables, erase_new_namedtuples, inline_new_helpers, scalarise_local_dicts, unroll_new_tables, propagate_new_constants
+        from .inline import MAX_ROUNDS, canonical_spellings, collapse_return_temps, collapse_test_temps, forward_substitute_new_temps, dissolve_attribute_records, dissolve_parameter_objects, fold_after_inlining, propagate_local_aliases, desugar_ifexp, desugar_match, desugar_exitstacks, desugar_partials_and_extends, desugar_return_all_any, dissolve_new_cm_classes, drop_absorbed_helpers, scalarise_local_objects, desugar_module_name_tables, erase_new_namedtuples, inline_new_helpers, scalarise_local_dicts, unroll_new_tables, propagate_new_constants
 
         # functions whose source differs from the pinned tree (digest of ast.dump): only those are rewritten by the
         # statement-level normalisations that would otherwise also touch pinned code
@@ -253,6 +253,24 @@ class Model:
 
         self.changed_functions = {q for q, f_ in self.functions.items() if not f_.module.short.startswith("_typeguard")
                                   and HASHES.get(q) != hashlib.sha1(ast.dump(f_.node).encode()).hexdigest()[:12]}
+        # pinned functions that exist under a new name get their name back, everywhere in the package
+        try:
+            from .inventory import SIGNATURES, BAGS
+        except ImportError:
+            SIGNATURES, BAGS = {}, {}
+        from .alpha import rename_functions_back
+
+        try:
+            from .inventory import CLASSES
+        except ImportError:
+            CLASSES = {}
+        from .alpha import rename_classes_back
+
+        self.classes_renamed = rename_classes_back(self, CLASSES)
+        self.functions_renamed = rename_functions_back(self, FUNCTIONS, SIGNATURES, BAGS)
+        if self.functions_renamed or self.classes_renamed:
+            self.changed_functions = {q for q, f_ in self.functions.items() if not f_.module.short.startswith("_typeguard")
+                                      and HASHES.get(q) != hashlib.sha1(ast.dump(f_.node).encode()).hexdigest()[:12]}
         try:
             from .inventory import LOCALS
         except ImportError:
@@ -261,6 +279,14 @@ class Model:
 
         self.locals_renamed = rename_locals_back(self, self.changed_functions, LOCALS) if self.changed_functions else []
         if self.locals_renamed:
+            self._reindex()
+        try:
+            from .inventory import CALL_CONVENTIONS
+        except ImportError:
+            CALL_CONVENTIONS = {}
+        from .alpha import normalise_call_conventions
+
+        if normalise_call_conventions(self, CALL_CONVENTIONS):
             self._reindex()
         if canonical_spellings(self):
             self._reindex()
@@ -315,6 +341,9 @@ class Model:
             if not changed:
                 break
             self.inlined += changed
+            self._reindex()
+        self.temps_substituted = forward_substitute_new_temps(self, set(self.changed_functions) | set(self.inlined), LOCALS) if self.changed_functions else []
+        if self.temps_substituted:
             self._reindex()
         if self.inlined:
             # records that only became visible as constructor arguments once a factory was inlined
